@@ -330,10 +330,28 @@ def r5_bounds_merge(repo=None):
         "%s < %s" % (TF, MF), "%s > %s" % (MF, TF))]
     hi = [n for n in g.nodes if n.kind == "cond" and isinstance(n.ast, ast.Compare) and norm(ast.unparse(n.ast)) in (
         "%s > %s" % (TL, ML), "%s < %s" % (ML, TL))]
+    if not lo and not hi:
+        # the merges written with min / max: `first = min(first, this_first)` and `last = max(last, this_last)`, the second reached
+        # from the first on every path of the iteration
+        def merge(fname, tgt, src):
+            return [n for n in g.nodes if isinstance(n.ast, ast.Assign) and norm(ast.unparse(n.ast)) in (
+                "%s = %s(%s, %s)" % (tgt, fname, tgt, src), "%s = %s(%s, %s)" % (tgt, fname, src, tgt))]
+        mlo, mhi = merge("min", MF, TF), merge("max", ML, TL)
+        if len(mlo) == 1 and len(mhi) == 1:
+            first, second = (mlo[0], mhi[0]) if mhi[0].id in g.reach([mlo[0].id], skip_labels=("back", "exc")) else (mhi[0], mlo[0])
+            ends = [n.id for n in g.nodes if n.kind in ("exit", "return")] + [n.id for n in g.nodes if n.kind == "cond" and isinstance(n.ast, ast.For)]
+            escaped = [x for x in ends if x in g.reach([first.id], avoid=[second.id], skip_labels=("exc",)) and x != first.id]
+            if escaped:
+                r.violation(m.rel, q, "`%s` can be skipped after `%s`" % (second.label, first.label), "the two merges are not both made for "
+                            "every further directory", line=second.line)
+            else:
+                r.ok("%s:%s %s" % (m.rel, first.line, q), "`%s` and `%s` are both evaluated for every further directory, each updating its "
+                     "own bound" % (first.label, second.label))
+            r.guard(1)
+            return r
     if len(lo) != 1 or len(hi) != 1:
-        r.violation(m.rel, q, "merge comparisons: %d lower, %d upper" % (len(lo), len(hi)), "the per-directory bounds are not merged "
-                    "with one `<` test for the first sample and one `>` test for the last sample", line=m.fn(q).lineno)
-        return r
+        raise AnalysisError("%s: merge of the per-directory bounds not recognised (%d `<` tests of the first sample, %d `>` tests of the last "
+                            "sample, no min / max pair)" % (q, len(lo), len(hi)))
     a, b = lo[0], hi[0]
     first, second = (a, b) if b.id in g.reach([a.id], skip_labels=("back", "exc")) else (b, a)
     ok = True
